@@ -58,6 +58,10 @@ Top == /\ nid = 0 /\ nid' = 1
                     ELSE IF k <= 5 THEN CallCA(0, "catch", Z, <<>>, alt) ELSE CallCA(0, "catch", "900", <<>>, alt)
        /\ UNCHANGED <<sc, path, fin, out>>
 
+\* the alt body is entered at most once per tree: the success flag of an op records its LAST execution only
+RECURSIVE HasRecall(_)
+HasRecallOp(o) == o.op = "recall" \/ HasRecall(o.body)
+HasRecall(body) == \E i \in 1..Len(body) : HasRecallOp(body[i])
 \* a frame can be closed only when it has executed something
 CanClose == NodeAt(tree, path).body # <<>>
 Build ==
@@ -68,8 +72,8 @@ Build ==
                    ELSE {"leaf", "leaf2", "leaf3", "close"})} :
        \* a failing precompile call is mostly caught by the calling contract
        \E pm \in {R({"catch", "catch2", "catch3", "bubble"})} :
-       \E o \in {R(Leaf(R(IF path # <<>> /\ tree.alt # <<>> THEN LeafKinds \cup {"recall"} ELSE LeafKinds), nid, tree.op, IF pm = "bubble" THEN "bubble" ELSE "catch"))} :
-       \E o2 \in {R(Leaf(R(IF tree.alt # <<>> THEN LeafKinds \cup {"recall"} ELSE LeafKinds), nid + 1, tree.op, IF pm = "bubble" THEN "bubble" ELSE "catch"))} :
+       \E o \in {R(Leaf(R(IF path # <<>> /\ tree.alt # <<>> /\ ~HasRecall(tree.body) THEN LeafKinds \cup {"recall"} ELSE LeafKinds), nid, tree.op, IF pm = "bubble" THEN "bubble" ELSE "catch"))} :
+       \E o2 \in {R(Leaf(R(IF tree.alt # <<>> /\ ~HasRecall(tree.body) THEN LeafKinds \cup {"recall"} ELSE LeafKinds), nid + 1, tree.op, IF pm = "bubble" THEN "bubble" ELSE "catch"))} :
        \E cv \in {R({Z, "0", "400"})} : \E md \in {R({"catch", "catch2", "bubble"})} :
        \E term \in {R({"none", "none2", "none3", "rev", "rev2", "inval", "selfd"})} :
        \E keep \in {R(1..3)} : \E ben \in {R({"T", "self", "S"})} :
@@ -124,7 +128,7 @@ RNext == Top \/ Build \/ Emit
 RSpec == RInit /\ [][RNext]_rvars
 
 \* the intended design satisfies the property layer on every generated tree (run with Defects = {})
-Intended == out = None \/ ModelDiff(out.x) = {}
+Intended == out = None \/ ModelDiff(out.x) = {} \/ (PrintT(<<"INTENDED-DIFF", ModelDiff(out.x), ToJson(out.x)>>) /\ FALSE)
 \* with the known defect mechanisms P fails only in trees that contain a precompile call
 ExplainedR == out = None \/ ModelDiff(out.x) = {} \/ HasPcOp(out.x.top)
 =============================================================================
